@@ -164,8 +164,12 @@ pub fn run() {
             _ => (ip.to_string(), port.to_string()),
         }
     };
+    // gRPC clients (the nacos_rust_client crate r-nacos itself depends on), by name: each holds one bi-stream connection
+    // to the node it was created for and registers ephemeral instances through it
+    let mut gclients: std::collections::HashMap<String, std::sync::Arc<nacos_rust_client::client::naming_client::NamingClient>> = Default::default();
     for_each_line(|l| {
         if l.starts_with('#') {
+            gclients.clear();
             for n in nodes.iter_mut() {
                 n.signal(libc::SIGCONT);
                 n.kill();
@@ -231,13 +235,43 @@ pub fn run() {
                 loop {
                     let all = (0..(n as usize)).all(|i| matches!(http(nodes[i].http, "GET", "/nacos/v1/cs/configs?dataId=verif-up&group=g", 1500), Some((200, b)) if b == "up"));
                     if all {
-                        return "ok".to_string();
+                        break;
                     }
                     if std::time::Instant::now() > deadline {
                         return "dead not-all-joined".to_string();
                     }
                     std::thread::sleep(Duration::from_millis(300));
                 }
+                // ... and the naming side of the cluster is formed: every node's view contains every other node (a node
+                // that is missing from a sender's view never receives that sender's HTTP registrations, only the 15 s
+                // heartbeat batches repair that). One probe instance through every node must be listed by all nodes.
+                if n >= 2 {
+                    for i in 0..(n as usize) {
+                        let _ = http(nodes[i].http, "POST", &format!("/nacos/v1/ns/instance?serviceName=verif-probe&ip=127.0.0.9&port={}&ephemeral=true", i + 1), 4000);
+                    }
+                    let deadline = std::time::Instant::now() + Duration::from_secs(40);
+                    loop {
+                        let all = (0..(n as usize)).all(|i| match http(nodes[i].http, "GET", "/nacos/v1/ns/instance/list?serviceName=verif-probe&healthyOnly=false", 2000) {
+                            Some((200, b)) => serde_json::from_str::<serde_json::Value>(&b).ok().map(|v| v["hosts"].as_array().map(|a| a.len()).unwrap_or(0) == n as usize).unwrap_or(false),
+                            _ => false,
+                        });
+                        if all {
+                            break;
+                        }
+                        if std::time::Instant::now() > deadline {
+                            return "dead naming-views-incomplete".to_string();
+                        }
+                        // re-announce: a registration made before a peer was known is not sent to it later
+                        for i in 0..(n as usize) {
+                            let _ = http(nodes[i].http, "POST", &format!("/nacos/v1/ns/instance?serviceName=verif-probe&ip=127.0.0.9&port={}&ephemeral=true", i + 1), 4000);
+                        }
+                        std::thread::sleep(Duration::from_millis(700));
+                    }
+                    for i in 0..(n as usize) {
+                        let _ = http(nodes[i].http, "DELETE", &format!("/nacos/v1/ns/instance?serviceName=verif-probe&ip=127.0.0.9&port={}&ephemeral=true", i + 1), 4000);
+                    }
+                }
+                "ok".to_string()
                 })();
                     if r == "ok" || attempt >= 3 {
                         return r;
@@ -311,20 +345,33 @@ pub fn run() {
                 None => "bad-op".to_string(),
             },
             ["getall", k] => {
-                let mut parts = vec![];
-                for nd in nodes.iter() {
-                    let v = if !nd.alive() {
-                        "down".to_string()
-                    } else {
-                        match http(nd.http, "GET", &format!("/nacos/v1/cs/configs?dataId={}&group=g", enc(k)), 4000) {
-                            Some((200, b)) => b,
-                            Some((404, _)) => "none".to_string(),
-                            _ => "down".to_string(),
+                // "eventually": the answers are collected until all live nodes agree, for at most 8 s (the settling times
+                // of the scenarios are bounds for an idle machine; a loaded one is given this much more)
+                let deadline = std::time::Instant::now() + std::time::Duration::from_millis(8000);
+                loop {
+                    let mut parts = vec![];
+                    let mut vals = vec![];
+                    for nd in nodes.iter() {
+                        let v = if !nd.alive() {
+                            "down".to_string()
+                        } else {
+                            match http(nd.http, "GET", &format!("/nacos/v1/cs/configs?dataId={}&group=g", enc(k)), 4000) {
+                                Some((200, b)) => b,
+                                Some((404, _)) => "none".to_string(),
+                                _ => "down".to_string(),
+                            }
+                        };
+                        if v != "down" {
+                            vals.push(v.clone());
                         }
-                    };
-                    parts.push(format!("{}={}", nd.id, v));
+                        parts.push(format!("{}={}", nd.id, v));
+                    }
+                    let agree = vals.windows(2).all(|w| w[0] == w[1]);
+                    if agree || std::time::Instant::now() >= deadline {
+                        break format!("all {}", parts.join(" "));
+                    }
+                    std::thread::sleep(std::time::Duration::from_millis(500));
                 }
-                format!("all {}", parts.join(" "))
             }
             ["reg", i, svc, ip, port, eph] | ["dereg", i, svc, ip, port, eph] => match idx(i, &nodes) {
                 Some(i) if nodes[i].alive() => {
@@ -350,36 +397,73 @@ pub fn run() {
                 Some(_) => "down".to_string(),
                 None => "bad-op".to_string(),
             },
-            ["listall", svc] => {
-                let mut parts = vec![];
-                for nd in nodes.iter() {
-                    let v = if !nd.alive() {
-                        "down".to_string()
-                    } else {
-                        match http(nd.http, "GET", &format!("/nacos/v1/ns/instance/list?serviceName={}&healthyOnly=false", enc(svc)), 4000) {
-                            Some((200, b)) => match serde_json::from_str::<serde_json::Value>(&b) {
-                                Ok(v) => {
-                                    let mut hosts: Vec<String> = v["hosts"].as_array().cloned().unwrap_or_default().iter().map(|h| {
-                                        let (mut ip, mut port) = (h["ip"].as_str().unwrap_or("").to_string(), h["port"].to_string());
-                                        if ip == "127.0.0.1" {
-                                            if let Some(k) = inst_ports.iter().position(|p| p.to_string() == port) {
-                                                ip = format!("10.0.0.{}", k);
-                                                port = "80".to_string();
-                                            }
-                                        }
-                                        format!("{}:{}:{}:{}:{}", ip, port, h["healthy"], h["enabled"], h["weight"])
-                                    }).collect();
-                                    hosts.sort();
-                                    if hosts.is_empty() { "-".to_string() } else { hosts.join(",") }
-                                }
-                                Err(_) => "unparsable".to_string(),
-                            },
-                            _ => "down".to_string(),
-                        }
-                    };
-                    parts.push(format!("{}={}", nd.id, v));
+            // a gRPC client <c> connected to node <i> registers an ephemeral instance
+            ["greg", c, i, svc, ip, port] => match idx(i, &nodes) {
+                Some(i) if nodes[i].alive() => {
+                    let (ip, port) = map_addr(ip, port, &inst_ports);
+                    let http = nodes[i].http;
+                    let cl = gclients.entry(c.to_string()).or_insert_with(|| {
+                        nacos_rust_client::client::ClientBuilder::new()
+                            .set_endpoint_addrs(&format!("127.0.0.1:{}", http))
+                            .set_use_grpc(true)
+                            .set_client_ip(format!("127.0.0.{}", 10 + i))
+                            .build_naming_client()
+                    });
+                    cl.register(nacos_rust_client::client::naming_client::Instance::new_simple(&ip, port.parse().unwrap_or(0), svc, "DEFAULT_GROUP"));
+                    "ok".to_string()
                 }
-                format!("lists {}", parts.join(" "))
+                Some(_) => "down".to_string(),
+                None => "bad-op".to_string(),
+            },
+            ["gdereg", c, svc, ip, port] => match gclients.get(*c) {
+                Some(cl) => {
+                    let (ip, port) = map_addr(ip, port, &inst_ports);
+                    cl.unregister(nacos_rust_client::client::naming_client::Instance::new_simple(&ip, port.parse().unwrap_or(0), svc, "DEFAULT_GROUP"));
+                    "ok".to_string()
+                }
+                None => "bad-op".to_string(),
+            },
+            ["listall", svc] => {
+                let deadline = std::time::Instant::now() + std::time::Duration::from_millis(8000);
+                loop {
+                    let line: String = {
+                let mut parts = vec![];
+                        for nd in nodes.iter() {
+                            let v = if !nd.alive() {
+                                "down".to_string()
+                            } else {
+                                match http(nd.http, "GET", &format!("/nacos/v1/ns/instance/list?serviceName={}&healthyOnly=false", enc(svc)), 4000) {
+                                    Some((200, b)) => match serde_json::from_str::<serde_json::Value>(&b) {
+                                        Ok(v) => {
+                                            let mut hosts: Vec<String> = v["hosts"].as_array().cloned().unwrap_or_default().iter().map(|h| {
+                                                let (mut ip, mut port) = (h["ip"].as_str().unwrap_or("").to_string(), h["port"].to_string());
+                                                if ip == "127.0.0.1" {
+                                                    if let Some(k) = inst_ports.iter().position(|p| p.to_string() == port) {
+                                                        ip = format!("10.0.0.{}", k);
+                                                        port = "80".to_string();
+                                                    }
+                                                }
+                                                format!("{}:{}:{}:{}:{}", ip, port, h["healthy"], h["enabled"], h["weight"])
+                                            }).collect();
+                                            hosts.sort();
+                                            if hosts.is_empty() { "-".to_string() } else { hosts.join(",") }
+                                        }
+                                        Err(_) => "unparsable".to_string(),
+                                    },
+                                    _ => "down".to_string(),
+                                }
+                            };
+                            parts.push(format!("{}={}", nd.id, v));
+                        }
+                        format!("lists {}", parts.join(" "))
+                    };
+                    let vals: Vec<&str> = line.split_whitespace().skip(1).filter_map(|p| p.split_once('=').map(|x| x.1)).filter(|v| *v != "down").collect();
+                    let agree = vals.windows(2).all(|w| w[0] == w[1]);
+                    if agree || std::time::Instant::now() >= deadline {
+                        break line;
+                    }
+                    std::thread::sleep(std::time::Duration::from_millis(500));
+                }
             }
             _ => "bad-op".to_string(),
         }
